@@ -38,7 +38,7 @@ EXC = [
     (r'^<transform::Output as std::ops::Drop>::drop$', r'remove_file$', 'clean-up of a temporary in Drop'),
     (r'^<transform::Transform as std::ops::Drop>::drop$', r'remove_dir_all$', 'clean-up of the temporary directory in Drop'),
     (r'^<transform::Execution as std::ops::Drop>::drop$', r'Child::wait$', 'reaping the child in Drop'),
-    (r'^transform::Transform::new$', r'Child::kill$', 'killing the probe process that only checks that the program is runnable'),
+    (r'^transform::Transform::new$', r'Child::kill$|Child::wait$', 'killing and reaping the probe process that only checks that the program is runnable'),
     (r'^transform::execute::\{closure#0\}$', r'read_to_string$|Child::wait$|OpenOptions::open$', 'stderr reaper thread: best-effort capture of diagnostics and unblocking of the named pipe'),
     (r"^group::GroupCtx::<'a>::new$", r'current_dir$', 'base directory for relative patterns: defaults to empty when the cwd is unreadable'),
     (r"^walk::Walk::<'a>::new$", r'current_dir$', 'default base dir of a fresh Walk; overwritten by the caller'),
